@@ -747,11 +747,42 @@ pub fn op_rel(p: &Pointer, q: &Pointer) -> String {
     check_valid_ptr(&mut law_valid, "intersection_rev", ixr);
     check_valid_ptr(&mut law_valid, "concat", &cc);
 
+    // ---- aliasing: the relations must depend on the texts only. Relate each operand with views cut out of
+    // its OWN buffer (at separators found by our own scan, re-wrapped with `Pointer::parse`) in both directions.
+    let mut law_alias = Law::new();
+    {
+        fn toks(t: &str) -> Vec<&str> { let mut it = t.split('/'); it.next(); if t.is_empty() { Vec::new() } else { it.collect() } }
+        for whole in [p, q] {
+            let text = whole.as_str();
+            let seps: Vec<usize> = text.bytes().enumerate().filter(|(_, b)| *b == b'/').map(|(i, _)| i).collect();
+            for idx in sample_positions(seps.len().saturating_sub(1), 6) {
+                let cut = match seps.get(idx) { Some(c) => *c, None => continue };
+                for v in [Pointer::parse(&text[..cut]), Pointer::parse(&text[cut..])].into_iter().flatten() {
+                    let (tw, tv) = (toks(text), toks(v.as_str()));
+                    let v_pre_w = tw.len() >= tv.len() && tw[..tv.len()] == tv[..];
+                    let w_pre_v = tv.len() >= tw.len() && tv[..tw.len()] == tw[..];
+                    law_alias.ck(whole.starts_with(v) == v_pre_w, "starts_with_view");
+                    law_alias.ck(v.starts_with(whole) == w_pre_v, "view_starts_with");
+                    law_alias.ck(whole.strip_prefix(v).is_some() == v_pre_w, "strip_prefix_view");
+                    law_alias.ck(v.strip_prefix(whole).is_some() == w_pre_v, "view_strip_prefix");
+                    let v_suf_w = tw.len() >= tv.len() && tw[tw.len() - tv.len()..] == tv[..];
+                    let exp_ew = if v.as_str().is_empty() { text.is_empty() } else { v_suf_w };
+                    law_alias.ck(whole.ends_with(v) == exp_ew, "ends_with_view");
+                    law_alias.ck(whole.strip_suffix(v).is_some() == v_suf_w, "strip_suffix_view");
+                    let common = tw.iter().zip(tv.iter()).take_while(|(a, b)| a == b).count();
+                    let exp_ix: String = tw[..common].iter().map(|t| format!("/{}", t)).collect();
+                    law_alias.ck(whole.intersection(v).as_str() == exp_ix, "intersection_view");
+                    law_alias.ck(v.intersection(whole).as_str() == exp_ix, "view_intersection");
+                }
+            }
+        }
+    }
     o.law("law_prefix", &law_prefix);
     o.law("law_suffix", &law_suffix);
     o.law("law_ix", &law_ix);
     o.law("law_concat", &law_concat);
     o.law("law_valid", &law_valid);
+    o.law("law_alias", &law_alias);
     o.finish()
 }
 
